@@ -526,8 +526,19 @@ class Run(object):
                             'was released or collected' % s['node'])
         self.out.probe('resize_while_exported' if exporting else 'resize_after_unlock')
 
-    def op_handle(self, keepobj):
+    CONST_PAYLOADS = [None, False, True, 0, (), '', b'', Ellipsis, NotImplemented, 1 << 70, 2.5, ('t', 1)]
+
+    def op_handle(self, keepobj, const=0):
         self.serial += 1
+        if const:
+            # payloads that cannot be weakly referenced, several of them singletons: identity must survive
+            o = self.CONST_PAYLOADS[(const - 1) % len(self.CONST_PAYLOADS)]
+            h = self.ffi.new_handle(o)
+            hn = self.g.add()
+            self.rec(hn, kind='handle', wr=weakref.ref(h), payload=None, const=o)
+            self.add_slot(hn, h, 'handle')
+            self.out.probe('handle_to_builtin_constant')
+            return
         o = Obj(self.serial)
         h = self.ffi.new_handle(o)
         on = self.g.add()
@@ -564,8 +575,11 @@ class Run(object):
         r = self.info[s['node']]
         h = s['obj']
         arg = h if via == 'direct' else self.ffi.cast('char *' if via == 'castchar' else 'void *', h)
-        o = self.ffi.from_handle(arg)
-        want = self.info[r['payload']]['wr']()
+        try:
+            o = self.ffi.from_handle(arg)
+        except Exception as e:
+            raise Violation('C21.7', 'from_handle() (%s) on a live handle raised %s: %s' % (via, type(e).__name__, e))
+        want = r['const'] if r['payload'] is None else self.info[r['payload']]['wr']()
         if o is not want:
             raise Violation('C21.7', 'from_handle() (%s) returned %r, not the object given to new_handle()' % (via, o))
         del o, want
@@ -761,7 +775,7 @@ class Run(object):
         elif name == 'frombuf2':
             self.op_frombuf_again(op[1], op[2])
         elif name == 'handle':
-            self.op_handle(op[1])
+            self.op_handle(op[1], op[2] if len(op) > 2 else 0)
         elif name == 'hcycle':
             self.op_handle_cycle()
         elif name == 'fromh':
@@ -893,7 +907,7 @@ class C21(core.Check):
             elif name == 'frombuf2':
                 ops.append(['frombuf2', k, rng.chance(0.5)])
             elif name == 'handle':
-                ops.append(['handle', rng.chance(0.5)])
+                ops.append(['handle', rng.chance(0.5), rng.randint(1, 12) if rng.chance(0.3) else 0])
             elif name == 'hcycle':
                 ops.append(['hcycle'])
             elif name == 'fromh':
